@@ -94,7 +94,13 @@ static int run_site(const acase_t *c, int *cleared, int *isfmt, int *fault) {
         rsize_t len = 0;
         size_t n = 0;
         wcsnorm_mode_t mode = (c->variant & 1) ? WCSNORM_NFC : WCSNORM_NFD;
-        if (c->site == S_NORM_LONG) { for (i = 0; i < (size_t)(130 + c->size); i++) wsrc[n++] = (i % 7 == 3) ? 0xE9 : L'a'; }
+        if (c->site == S_NORM_LONG) {
+            for (i = 0; i < (size_t)(130 + c->size); i++) {
+                wsrc[n++] = (i % 7 == 3) ? 0xE9 : L'a';
+                /* both allocation sites in one call: heap scratch (long input) AND a run of marks that makes the reorder step allocate */
+                if ((c->variant & 2) && i == 60) { size_t m; for (m = 0; m < (size_t)(12 + (c->size & 7)); m++) wsrc[n++] = (m & 1) ? 0x0301 : 0x0323; }
+            }
+        }
         else { wsrc[n++] = L'a'; for (i = 0; i < (size_t)(12 + c->size); i++) wsrc[n++] = (i & 1) ? 0x0301 : 0x0323; wsrc[n++] = L'b'; }
         wsrc[n] = 0;
         a_armed = 1;
